@@ -65,10 +65,10 @@ type Header struct {
 
 // Block is one OSMData file block holding a PrimitiveBlock.
 type Block struct {
-	Granularity     *int32 // field 17, absent = format default 100
-	LatOffset       *int64 // field 19, absent = 0
-	LonOffset       *int64 // field 20, absent = 0
-	DateGranularity *int32 // field 18, absent = format default 1000
+	Granularity     *int32   // field 17, absent = format default 100
+	LatOffset       *int64   // field 19, absent = 0
+	LonOffset       *int64   // field 20, absent = 0
+	DateGranularity *int32   // field 18, absent = format default 1000
 	Strings         []string // the complete string table, index 0 included (by convention "")
 	OmitStringTable bool     // malformed: required field 1 not written
 	Groups          []Group
@@ -90,9 +90,9 @@ type Tag struct{ K, V uint32 }
 
 // Dense is DenseNodes.
 type Dense struct {
-	IDs, Lats, Lons              []int64 // absolute raw values (units of granularity for lat/lon)
+	IDs, Lats, Lons             []int64 // absolute raw values (units of granularity for lat/lon)
 	OmitIDs, OmitLats, OmitLons bool    // malformed: column not written
-	Info                         *DenseInfo
+	Info                        *DenseInfo
 	// keys_vals: written iff KeysVals is true (built from Tags: (k v)* 0 per node) or RawKeysVals != nil (verbatim).
 	KeysVals    bool
 	Tags        [][]Tag
@@ -692,8 +692,8 @@ func CutClass(spans []Span, n int) (complete int, where string) {
 }
 
 // Helpers for building pointer fields.
-func I32(v int32) *int32    { return &v }
-func I64(v int64) *int64    { return &v }
-func U32(v uint32) *uint32  { return &v }
-func Bool(v bool) *bool     { return &v }
-func Str(v string) *string  { return &v }
+func I32(v int32) *int32   { return &v }
+func I64(v int64) *int64   { return &v }
+func U32(v uint32) *uint32 { return &v }
+func Bool(v bool) *bool    { return &v }
+func Str(v string) *string { return &v }
